@@ -8,6 +8,7 @@ alternative decision list until all feasible paths are covered.
 from __future__ import annotations
 
 import ast
+import os
 import builtins as _bi
 import importlib
 import operator
@@ -285,6 +286,7 @@ class Ctx:
         self.trace = []
         self.merge_guards = []    # z3 conditions of the merged branches being executed speculatively
         self.side = []            # side obligations raised by the engine: (label, hyps, goal, note)
+        self.undo = []            # guarded dict stores made in speculative branches: (dict, key, previous entry)
 
     def side_obligation(self, label, goal, note=""):
         """an obligation the executed code must satisfy for the engine's reading of it to be right
@@ -565,6 +567,8 @@ class Interp:
 
     def ev_Name(self, node, env):
         v = env.lookup(node.id, self)
+        while isinstance(v, LazyPhi):
+            v = v.a if self.truth(v.cond, tag=f"{node.id} (value depends on an earlier branch)") else v.b
         if isinstance(v, MaybeUndef):
             if self.ctx.expect(v.cond, tag=f"{node.id} defined"):
                 return v.value
@@ -672,7 +676,7 @@ class Interp:
     def merge_values(self, c, a, b):
         if a is b:
             return a
-        if isinstance(a, MaybeUndef) or isinstance(b, MaybeUndef):
+        if isinstance(a, (MaybeUndef, LazyPhi)) or isinstance(b, (MaybeUndef, LazyPhi)):
             raise CannotMerge()
         if isinstance(a, (SV, CV, bool, int, float, str, type(None), complex, Opaque)) and \
                 isinstance(b, (SV, CV, bool, int, float, str, type(None), complex, Opaque)):
@@ -769,6 +773,9 @@ class Interp:
                 return a % b
             except TypeError:
                 return a
+        if op == "*" and getattr(self, "opaque_loops", False) and \
+                ((isinstance(a, (list, tuple)) and isinstance(b, SV)) or (isinstance(b, (list, tuple)) and isinstance(a, SV))):
+            return Opaque("sequence * unknown length")
         if op == "+" and isinstance(a, str) and not isinstance(b, str):
             raise PyRaise(TypeError("can only concatenate str"))
         for x in (a, b):
@@ -1071,6 +1078,8 @@ class Interp:
                 return Native(lambda it: obj, name=name)
             if name == "dtype":
                 return Opaque("dtype")
+            if getattr(self, "opaque_loops", False):
+                return Opaque(f"<value>.{name}")
             raise EngineError(f"attribute {name} of symbolic scalar")
         try:
             return getattr(obj, name)
@@ -1078,6 +1087,9 @@ class Interp:
             raise PyRaise(e)
 
     def setattr(self, obj, name, val):
+        if isinstance(obj, Opaque):
+            self.ctx.log_opaque.append(f"setattr({obj.why}.{name}) ignored")
+            return
         if self.ctx.merge_mode:
             raise CannotMerge()
         if isinstance(obj, ObjVal):
@@ -1181,6 +1193,9 @@ class Interp:
                     if r is not NotImplemented:
                         return r
             raise PyRaise(TypeError("object is not subscriptable"))
+        if isinstance(key, Opaque) or getattr(key, "opaque_like", False) or \
+                (isinstance(key, tuple) and any(isinstance(k, Opaque) or getattr(k, "opaque_like", False) for k in key)):
+            return Opaque(f"{type(obj).__name__}[unknown]")
         if isinstance(key, (SV, Opaque)) or hasattr(key, "sym_getitem"):
             if isinstance(obj, (list, tuple)) and isinstance(key, SV) and key.is_int():
                 # selection from a concrete sequence by a symbolic index
@@ -1197,11 +1212,21 @@ class Interp:
             raise PyRaise(e)
 
     def setitem(self, obj, key, val):
-        if self.ctx.merge_mode:
-            raise CannotMerge()
         if isinstance(obj, Opaque):
+            # a store into an unknown object changes no tracked state (also inside speculatively executed branches)
             self.ctx.log_opaque.append(f"setitem on {obj.why} ignored")
             return
+        if self.ctx.merge_mode:
+            if isinstance(obj, PDict) and not isinstance(key, (SV, Opaque)) and len(self.ctx.merge_guards) == self.ctx.merge_mode:
+                # store into a dict inside a speculatively executed branch: a guarded update (undone if the merge is abandoned)
+                old = list(obj.e[key]) if key in obj.e else None
+                self.ctx.undo.append((obj, key, old))
+                try:
+                    obj.set(key, val, when=z3.And(*self.ctx.merge_guards) if self.ctx.merge_guards else True)
+                except EngineError:
+                    raise CannotMerge()
+                return
+            raise CannotMerge()
         if isinstance(obj, PDict):
             obj.set(key, val)
             return
@@ -1287,6 +1312,17 @@ class Interp:
                 raise CannotMerge()
             kwargs = self._plain_kwargs(kwargs, f.name)
             return f.fn(self, *args, **kwargs)
+        if hasattr(f, "py") and hasattr(f, "_pyvc_isinstance"):
+            # numpy scalar type used as a conversion function: np.int64(x); pandas constructors: a new unknown object
+            if f.py is None:
+                return Opaque(f"{f.__name__}(...)")
+            return self.builtins["__astype__"](self, args[0], f) if args else 0
+        if getattr(f, "opaque_like", False) and not isinstance(f, Opaque):
+            # df.<name>(...) on a frame-tracked table / column: a reader unless called with inplace=True
+            if kwargs.get("inplace", False) is True and hasattr(f, "table"):
+                f.table.write_unknown(self, f"{getattr(f, 'col', '?')}(inplace=True)")
+                return None
+            return Opaque(f"{getattr(f, 'why', 'method')}()")
         if isinstance(f, Opaque):
             if self.ctx.merge_mode and any(not isinstance(a, (SV, CV, int, float, str, bool, type(None), tuple, Opaque)) for a in args):
                 raise CannotMerge()
@@ -1513,8 +1549,8 @@ class Interp:
         out = []
         cenv = self._comp_env(env)
         first = self.ev(node.generators[0].iter, env)
-        if isinstance(first, Opaque):
-            return Opaque(f"comprehension over {first.why}")
+        if isinstance(first, Opaque) or getattr(first, "opaque_like", False):
+            return Opaque(f"comprehension over {getattr(first, 'why', '?')}")
         if hasattr(first, "generic_row"):
             # comprehension over a column: the same scalar expression for the generic row (A-GENERIC)
             g = node.generators[0]
@@ -1550,7 +1586,7 @@ class Interp:
     def _opaque_comp(self, node, env):
         if getattr(self, "opaque_loops", False):
             first = self.ev(node.generators[0].iter, env)
-            if isinstance(first, (Opaque, SV)):
+            if isinstance(first, (Opaque, SV)) or getattr(first, "opaque_like", False):
                 return Opaque(f"comprehension@{node.lineno}")
         return None
 
@@ -1800,6 +1836,9 @@ class Interp:
                 env.modenv.vals[t.id] = v
             else:
                 env.local[t.id] = v
+        elif isinstance(t, (ast.Tuple, ast.List)) and isinstance(v, Opaque):
+            for k, e in enumerate(t.elts):
+                self.assign(e.value if isinstance(e, ast.Starred) else e, Opaque(f"{v.why}[{k}]"), env)
         elif isinstance(t, (ast.Tuple, ast.List)):
             vals = self.iterate(v) if not isinstance(v, (tuple, list)) else list(v)
             star = [k for k, e in enumerate(t.elts) if isinstance(e, ast.Starred)]
@@ -1903,6 +1942,8 @@ class Interp:
                 continue
             if isinstance(st, ast.AugAssign) and isinstance(st.target, ast.Name):
                 continue
+            if isinstance(st, (ast.Assign, ast.AugAssign)):
+                continue   # stores into objects: allowed only when the target turns out to be an unknown object (checked dynamically)
             if isinstance(st, ast.If) and self._mergeable(st.body) and self._mergeable(st.orelse):
                 continue
             if isinstance(st, (ast.Raise, ast.Return)):
@@ -1937,6 +1978,7 @@ class Interp:
         saved = dict(env.local)
         self.ctx.merge_mode += 1
         env.merging += 1
+        undo_mark = len(self.ctx.undo)
         try:
             try:
                 lt = lf = None
@@ -1978,7 +2020,11 @@ class Interp:
                     elif k == "__returned__":
                         merged[k] = self.merge_values(cs, lt.get(k, False), lf.get(k, False))
                     elif k in lt and k in lf:
-                        merged[k] = self.merge_values(cs, lt[k], lf[k])
+                        try:
+                            merged[k] = self.merge_values(cs, lt[k], lf[k])
+                        except CannotMerge:
+                            # not expressible as one value: decided lazily if (and only if) the variable is read again
+                            merged[k] = LazyPhi(cs, lt[k], lf[k])
                     elif k in lt:
                         merged[k] = MaybeUndef(cs, lt[k])
                     else:
@@ -1987,7 +2033,17 @@ class Interp:
                 env.local.update(merged)
                 return True
             except (CannotMerge, PyRaise, NeedFork):
+                if os.environ.get("PYVC_DEBUG_MERGE"):
+                    import traceback
+                    print("---- merge abandoned for if at", getattr(body[0], "lineno", "?") if body else "?")
+                    traceback.print_exc(limit=-6)
                 env.local = saved
+                while len(self.ctx.undo) > undo_mark:
+                    d, k, old = self.ctx.undo.pop()
+                    if old is None:
+                        d.e.pop(k, None)
+                    else:
+                        d.e[k] = old
                 return False
             except _DeadBranch:
                 env.local = saved
@@ -2014,9 +2070,9 @@ class Interp:
             except (_Break, _Continue):
                 raise EngineError("break/continue in a loop over rows")
             return
-        if isinstance(it, (Opaque, SV)) and getattr(self, "opaque_loops", False):
-            if isinstance(it, SV):
-                it = Opaque(f"iterable {str(it.z)[:40]}")
+        if (isinstance(it, (Opaque, SV)) or getattr(it, "opaque_like", False)) and getattr(self, "opaque_loops", False):
+            if not isinstance(it, Opaque):
+                it = Opaque(f"iterable {getattr(it, 'why', '')}")
             # loop over an unknown iterable (frame-tracking mode): the body is executed once with unknown loop
             # variables -- every store the body can make is recorded (stores do not depend on the iteration count)
             self._assign_opaque(node.target, Opaque(f"element of {it.why}"), env)
@@ -2139,6 +2195,13 @@ class _BranchReturned(Exception):
 
 class _DeadBranch(Exception):
     """the merged branch being executed cannot be live on this path (its raise was decided not to happen)"""
+
+
+class LazyPhi(Imm):
+    """a local whose value after a merged `if` cannot be written as one term: the branch is decided when it is read"""
+
+    def __init__(self, cond, a, b):
+        self.cond, self.a, self.b = cond, a, b
 
 
 class MaybeUndef(Imm):
